@@ -750,8 +750,8 @@ def gen_restart(rng, cfg, w: World, opid, invalid, steer):
             op["meta"]["$schema"] = "user"  # user metadata may use any key
     if rng.random() < 0.3:
         op["no_mapper"] = True
-    if op["key_map"] == "off" and rng.random() < 0.5:
-        op["user_keys"] = True
+    if rng.random() < (0.5 if op["key_map"] == "off" else 0.25):
+        op["user_keys"] = True  # mapper fields named "s", "i", "k"
     return op
 
 
